@@ -135,14 +135,23 @@ func reportRaces(c *ctx) {
 		if err != nil {
 			continue
 		}
-		k := strings.Count(string(b), "WARNING: DATA RACE")
-		if k > 0 && first == "" {
-			first = string(b)
-			if len(first) > 6000 {
-				first = first[:6000]
+		// only races that involve zapx code count; a race confined to the harness is a harness bug
+		for _, rep := range strings.Split(string(b), "==================") {
+			if !strings.Contains(rep, "WARNING: DATA RACE") {
+				continue
+			}
+			if !strings.Contains(rep, "/repo/") && !strings.Contains(rep, "blevesearch/zapx") {
+				fmt.Fprintln(os.Stderr, "harness-only data race (ignored for the verdict):\n"+rep)
+				continue
+			}
+			n++
+			if first == "" {
+				first = rep
+				if len(first) > 6000 {
+					first = first[:6000]
+				}
 			}
 		}
-		n += k
 	}
 	c.Extra["data_races_reported"] = n
 	if n > 0 {
